@@ -5,7 +5,7 @@
    instance over the reals, for positive radii and distinct end points:
    * unit_vectors / start_point / end_point: the centre, the (uniformly scaled-up when too small) radii and the
      rotation put the pen and the end point on the ellipse;
-   * angle_unit: the code's signed angle has the right cosine and sine and lies in [-pi, pi];
+   * angle_unit: the code's signed angle has the right cosine and sine and lies in (-pi, pi];
    * arc_starts_and_ends: the ellipse point at the start angle is the pen and the point at start angle + sweep
      is the arc's end point — so the first cubic starts at the pen and the last ends at the end point;
    * point_on_ellipse: every segment end lies on that ellipse;
@@ -14,9 +14,10 @@
    * rel_endpoint: a relative arc's end point is the pen plus the offset;
    * on the float model: a zero / NaN radius gives exactly one LineTo to the mapped end point; otherwise the
      arc is n CubeTo calls and nothing else; the relative form is the absolute form at the converted point.
-   PARTIAL — not proved: that the large-arc flag selects the sweep of magnitude > pi (the sign choice of the
-   centre), that the control points make each cubic a good approximation of its ellipse segment, and any bound
-   on float rounding. *)
+   * large_arc_flag: with the centre chosen by the code (sign of the square root from large = sweep), the
+     sweep has magnitude >= pi when the large-arc flag is set and <= pi when it is not.
+   PARTIAL — not proved: that the control points make each cubic a good approximation of its ellipse segment,
+   and any bound on float rounding. *)
 From Coq Require Import Reals ZArith Bool List.
 From IVG Require Import SF NumCodec Color Calls Render GoMath Arc GeomR ArcR ArcAngles RenderProofs ArcProofs.
 Import ListNotations.
@@ -48,7 +49,7 @@ Print Assumptions end_point.
 
 Theorem angle_unit : forall ux uy vx vy : R, (ux * ux + uy * uy = 1)%R -> (vx * vx + vy * vy = 1)%R ->
   let th := angle_gen AR ux uy vx vy in
-  (cos th = ux * vx + uy * vy /\ sin th = ux * vy - uy * vx /\ - PI <= th <= PI)%R.
+  (cos th = ux * vx + uy * vy /\ sin th = ux * vy - uy * vx /\ - PI < th <= PI)%R.
 Proof. exact ArcAngles.angle_unit. Qed.
 Print Assumptions angle_unit.
 
@@ -76,6 +77,14 @@ Theorem sweep_sign_and_extent : forall (x1 y1 x2 y2 Rx Ry co si : R) (same sweep
   (sweep = true -> 0 <= dth <= 2 * PI)%R /\ (sweep = false -> - (2 * PI) <= dth <= 0)%R.
 Proof. exact ArcAngles.sweep_sign_and_extent. Qed.
 Print Assumptions sweep_sign_and_extent.
+
+Theorem large_arc_flag : forall (x1 y1 x2 y2 Rx Ry co si : R) (same sweep : bool),
+  (0 < Rx)%R -> (0 < Ry)%R -> (co * co + si * si = 1)%R -> (x1 <> x2 \/ y1 <> y2) ->
+  forall large : bool, same = Bool.eqb large sweep ->
+  let dth := snd (arc_angles_gen AR (arc_center_gen AR x1 y1 x2 y2 Rx Ry co si same) sweep) in
+  (large = true -> PI <= Rabs dth)%R /\ (large = false -> Rabs dth <= PI)%R.
+Proof. exact ArcAngles.large_arc_flag. Qed.
+Print Assumptions large_arc_flag.
 
 Theorem rel_endpoint : forall (inj : f32 -> R) (s : rstate R) (x : R), r_scx s <> 0%R ->
   unabsX (NR inj) s (relVX (NR inj) s x) = (unabsX (NR inj) s (z_penx s) + x)%R.
